@@ -577,6 +577,96 @@ def check_process_case(case, counters, sets):
     return viols
 
 
+def check_pdf_case(case, counters, sets):
+    """PeriodicDataFrame / Random (streamz.dataframe): a source that polls a callback from its own coroutine, with start() and
+    stop() of its own.  Same oracle, in virtual time: the harness only makes the inner Source asynchronous (so that it lives
+    on the virtual loop) and tags every polling coroutine."""
+    import pandas as pd
+    import streamz.dataframe.core as dcore
+    viols, seen = [], set()
+
+    def add(key, what):
+        if key not in seen:
+            seen.add(key)
+            viols.append({'key': key, 'what': what, 'case': case})
+    orig_source, orig_cb = dcore.Source, dcore.PeriodicDataFrame.__dict__['_cb']
+    try:
+        with virtual_env() as env:
+            loop = env.loop
+            with R.recording(env.now) as log:
+                run_of_task, runs, n = {}, {'n': 0}, {'n': 0}
+                inner = orig_cb.__func__
+
+                async def cb_tagged(*a):
+                    runs['n'] += 1
+                    rid = runs['n']
+                    run_of_task[asyncio.current_task()] = rid
+                    log.add('RUN_BEGIN', 'src', rid)
+                    try:
+                        await inner(*a)
+                    finally:
+                        log.add('RUN_END', 'src', rid)
+                dcore.Source = lambda: orig_source(asynchronous=True)
+                dcore.PeriodicDataFrame._cb = staticmethod(cb_tagged)
+
+                def datafn(last=None, now=None, **kw):
+                    task = asyncio.current_task() if asyncio._get_running_loop() is not None else None
+                    if task in run_of_task:
+                        n['n'] += 1
+                        log.add('SRC_EMIT', 'src', run_of_task[task], n['n'])
+                    return pd.DataFrame({'x': [1.0]})
+                pdf = dcore.PeriodicDataFrame(datafn, interval='%dms' % int(case['poll'] * 1000), start=False)
+
+                def do(op):
+                    for o in (('stop', 'start') if op == 'stopstart' else (op,)):
+                        log.add('START_CALL' if o == 'start' else 'STOP_CALL', 'src', not pdf.continue_[0])
+                        getattr(pdf, o)()
+                do('start')
+                for t, op in case['ops']:
+                    loop.call_later(t, do, op)
+                horizon = (case['ops'][-1][0] if case['ops'] else 0) + 6 * case['poll']
+                reason = loop.drive(until_vt=horizon, max_iters=200000)
+                do('stop')
+                loop.drive(until_vt=horizon + 3 * case['poll'], max_iters=100000)
+                errors = list(env.errors)
+    finally:
+        dcore.Source = orig_source
+        dcore.PeriodicDataFrame._cb = orig_cb
+    if reason == 'iter-cap':
+        return None
+    for name, msg, exc in errors:
+        add('C18:loop-exception:%s' % (type(exc).__name__ if exc is not None else 'log'), '%s %s %r' % (name, msg[:200], exc))
+    ev = log.ev
+    eff_starts = sum(1 for e in ev if e[2] == 'START_CALL' and e[4])
+    n_runs = sum(1 for e in ev if e[2] == 'RUN_BEGIN')
+    counters['order_checks'] = counters.get('order_checks', 0) + 1
+    if n_runs > eff_starts:
+        add('C18:more-runs-than-effective-starts@PeriodicDataFrame', '%d start() calls on a stopped source, %d polling loops begun' % (eff_starts, n_runs))
+    newest, stopped_now, after_stop = 0, True, {}
+    for e in ev:
+        if e[2] == 'START_CALL' and e[4]:
+            stopped_now = False
+            after_stop = {}
+        elif e[2] == 'STOP_CALL' and not e[4]:
+            stopped_now = True
+            after_stop = {}
+        elif e[2] == 'SRC_EMIT':
+            rid = e[4]
+            counters['cycles_attributed_to_runs'] = counters.get('cycles_attributed_to_runs', 0) + 1
+            if rid < newest:
+                add('C18:two-polling-loops@PeriodicDataFrame', 'polling loop #%d polled at t=%s although loop #%d was already polling '
+                    '(%d loops begun in total)' % (rid, e[1], newest, n_runs))
+            newest = max(newest, rid)
+            if stopped_now:
+                after_stop[rid] = after_stop.get(rid, 0) + 1
+                if after_stop[rid] > 1:         # the cycle in progress (sleep, then poll) may finish: one more poll, not two
+                    add('C18:cycle-begun-while-stopped@PeriodicDataFrame', 'loop #%d polled a second time after stop(), at t=%s' % (rid, e[1]))
+    if eff_starts > 1:
+        counters['restart_histories'] = counters.get('restart_histories', 0) + 1
+    sets.setdefault('source_kinds', set()).add('PeriodicDataFrame')
+    return viols
+
+
 def run_shard(seed, tier, shard, nshards):
     rng = random.Random('%s-%d-%d-%s' % (PID, seed, shard, tier))
     out = {'evaluations': 0, 'keys': [], 'violations': [], 'samples': [], 'counters': {},
@@ -597,6 +687,20 @@ def run_shard(seed, tier, shard, nshards):
         case['kind'] = rng.choice(['batched', 'batched', 'from_kafka'])
         out['violations'].extend(check_kafka_case(case, out['counters'], out['sets']))
         out['evaluations'] += 1
+        out['keys'].append(progs.prog_key(case, None))
+    for k in range(n_cases(tier) // 10):
+        poll = rng.choice([0.5, 1.0])
+        t, ops = 0.0, []
+        for _ in range(rng.randrange(1, 7)):
+            t += rng.choice([0, 0.25, 0.5, 1.0, 1.0, 2.0])
+            ops.append([round(t, 3), rng.choice(['start', 'stop', 'stopstart', 'stopstart'])])
+        case = {'pdf': True, 'poll': poll, 'ops': ops}
+        v = check_pdf_case(case, out['counters'], out['sets'])
+        out['evaluations'] += 1
+        if v is None:
+            out['inconclusive'].append('PeriodicDataFrame case %d: iteration cap' % k)
+            continue
+        out['violations'].extend(v)
         out['keys'].append(progs.prog_key(case, None))
     for k in range(n_cases(tier) // 10):
         case = gen_server_case(rng)
@@ -625,5 +729,7 @@ def replay(case):
         return check_process_case(case, {}, {}) or []
     if case.get('server'):
         return check_server_case(case, {}, {})
+    if case.get('pdf'):
+        return check_pdf_case(case, {}, {}) or []
     _, viols = check_case(case, {}, {})
     return viols or []
